@@ -315,9 +315,15 @@ def check_dispatch(ctx, f):
             # argument roles: q only with delay, v only with volume
             argt = [src(a) for a in call.args]
             pn = [a.arg for a in wrapper.args.args[1:]]
+            fdefs_ = util.single_defs(f)
             for a, p_ in zip(argt, pn):
                 role = {'sim': 'Interface', 'timepoints': 'timepoints', 'q': 'q', 'dq': 'q', 'v': 'v'}.get(p_)
-                if role and a != role:
+                if role == 'q':
+                    # the delay queue: a local (whatever it is called) built by ArrayDelayQueue.setup_queue in this function
+                    d_ = fdefs_.get(a)
+                    if not (d_ is not None and isinstance(d_, ast.Call) and src(d_.func).replace(' ', '').endswith('setup_queue')):
+                        problems.append('argument %s passed for parameter %s is not the queue set up for this run' % (a, p_))
+                elif role and a != role:
                     problems.append('argument %s passed for parameter %s' % (a, p_))
         ctx.ob('R7.2-concrete-simulator', cls + '@' + call.func.attr, not problems, where,
                'the class instantiated implements the simulate slot reached by %s' % call.func.attr, '; '.join(problems))
@@ -645,6 +651,17 @@ def check(ctx):
                    'every evaluation slot of the leaf class %s resolves to a real body (no abstract method is reached at run time)' % cls, '; '.join(bad))
     if n_leaf < 25:
         raise AnalysisError('anchor vanished: only %d leaf propensity/delay/term classes found' % n_leaf)
+    # "its first row is the initial condition with assignment rules applied" - also for a rule added to a model that was already
+    # initialised: every method that adds a rule marks the model for re-initialisation (C08 R8.1) - re-emitted here
+    from ..core import SubCtx as _Sub
+    from . import c08 as _c08
+    for m_ in ('types', 'types.pxd', 'random', 'lineage', 'lineage.pxd', 'inference'):
+        ctx.prog.mod(m_)
+    sub = _Sub(ctx)
+    _c08.check_invalidation(sub, 'Model', _c08.DEF_FIELDS)
+    for rule, key, ok, where, what, detail in sub.got:
+        if rule == 'R8.1-invalidate' and 'rule' in key.lower():
+            ctx.ob('R7.4-first-row', 'C08/%s/%s' % (rule, key), ok, where, what, detail)
     ctx.floor('R7.1-option-lattice', 256)
     ctx.floor('R7.2-concrete-simulator', 5)
     ctx.floor('R7.3-constructor', 8)
